@@ -68,6 +68,19 @@ CHECKS = {
         design_ref="DESIGN.md section 5, C19",
         note=NOTE_COMMON + "DuckDB / DB2 classes only when importable. Known findings D44, D49, D53 are matched by trigger predicates.",
     ),
+    "C18": dict(
+        technique="Lean 4 proof: round-trip and non-interference theorems for a model of SQL string-literal rendering/lexing and of LIKE with "
+                  "automatic escaping, for all strings; model tied to SQLAlchemy/SQLite by the rendered query text and by execution",
+        text="Pdt/Props/C18.lean: quote_roundtrip and no_injection (lexing the rendered literal followed by any statement text yields exactly one "
+             "string token equal to the Python string), like_exact / like_prefix / like_suffix / like_infix (the escaped pattern matches exactly the "
+             "strings that equal / start with / end with / contain the Python string), for all strings by induction. Tie O10: for every test string the "
+             "literal and the LIKE pattern inside the real build_query text must be what the model renders, and every string token must decode to the "
+             "literal; the statement must keep its token skeleton. Oracle: SQLite vs Polars for equality, is_in, concatenation, starts_with / ends_with / "
+             "contains, replace_all, case, constant mutate, fill_null, filter, with column data built from the same characters. Partial: the theorems "
+             "are about modelled third-party components (SQLAlchemy renderer, SQLite lexer and LIKE).",
+        design_ref="DESIGN.md section 5, C18",
+        note=NOTE_COMMON + "SQLite's ASCII case-insensitive LIKE is outside the model (alphabet without case pairs, section 4.5).",
+    ),
 }
 
 NOT_YET = "check not built yet in this revision of /verif (model and theorems planned in DESIGN.md section 5)"
